@@ -91,8 +91,8 @@ seeded changes and which check catches which in §11.
     relational statements that compare runs on *different* inputs through more than the paragraph structure.
   C09's and C08's relational clauses, by contrast, are theorems over `wrap`'s functional postcondition (U11, §2.9), and C18's two
   corollaries are theorems over `dedent`'s (and `indent`'s) postconditions (U9, §2.9).
-* **Robustness of the machinery** (§8, §11): 182 seeded property-breaking changes that compile and pass the upstream suite
-  (5 reverted fixes + 177 from independent sub-agents in fourteen waves) are all reported; 25 + 12 behaviour-preserving refactors, 16 small edits and 137 renames of locals
+* **Robustness of the machinery** (§8, §11): 185 seeded property-breaking changes that compile and pass the upstream suite
+  (5 reverted fixes + 180 from independent sub-agents in fifteen waves) are all reported; 25 + 12 behaviour-preserving refactors, 16 small edits and 137 renames of locals
   raise no alarm; every unit verifies under 8 different SMT seeds; the unchanged tree passes all 20 checks in both tiers.
 """)
 w(s1.rstrip()+"\n")
@@ -456,6 +456,7 @@ w("""## 9. Departures from the original plan
 | C05, C14 BEC (broad alphabet with an OSC title containing a space and a hyperlink with a hyphenated URL) | a fitting paragraph with such a sequence is returned as two lines; `fill` is then not idempotent | **code violates the letter of C05 / C14** | known findings KF5, KF6 (§5), one class tag |
 | Verus → property mapping | a failed `requires` of a prelude callee was attributed to C04 only | machinery wrong | tags are read on any line of the failing span; `requires` lines carry tags |
 | probe | a `//@probe` inside `({ let …;` produced a syntax error that was reported as vacuity | machinery wrong | probe compile errors are distinguished from a verifying probe |
+| C03 BEC (a trial contract `C03.optimal_fit.minimal_cost.repeated_widths`, written after seed `w15_C03_A`: random fragments with line-width lists of 3–4 entries drawn from two values) | `[3,2,8,0,3,4,7]`-wide fragments, line widths `[7, 7, 26]`, penalties `(1000, 2500, 4, 25, 25)`: optimal-fit returns cost 5501, the minimum is 4102 | check wrong: it demanded more than C03 quantifies over ("all one- and two-element line-width lists"); with a third entry the target width of a line depends on its number beyond the second line, the cost matrix is no longer totally monotone and SMAWK's column minima are not the minima — outside the property | contract removed again (never committed); the one- and two-element contracts stay; `w15_C03_A` is reported by U2's cost-model obligation (`cost == line_cost(…)`), with no failing input |
 | U1 / U11 / U13 / U24 | rlimit under some SMT seeds (would have been *undecided*, not an alarm) | proof brittle | opaque state predicate + step lemmas; lemma split |
 
 No correct check was loosened: every change above either fixes the checker's own test input or narrows a check to what
@@ -463,8 +464,8 @@ the property states.
 
 ## 11. Seeded changes and what catches them
 
-`seeded/` holds 182 changes that compile, pass the upstream suite in both feature sets, and break a property: the 5 reverted
-fixes and 177 produced by independent sub-agents given **only** the property text and a scratch worktree:
+`seeded/` holds 185 changes that compile, pass the upstream suite in both feature sets, and break a property: the 5 reverted
+fixes and 180 produced by independent sub-agents given **only** the property text and a scratch worktree:
 
 * waves 1–2 (40): two per property;
 * wave 3 (20): cooperating edits, indirect helpers, wrong fast paths;
@@ -490,14 +491,20 @@ fixes and 177 produced by independent sub-agents given **only** the property tex
 * wave 14 (4): changes dressed as *performance optimisations* (substring search instead of per-character decoding in `display_width`, a byte-window
   scan in the hyphen splitter, a cached blank tail in `wrap_columns`, back-to-front filling of the optimal-fit result keyed to a
   disabled line counter) for C10, C12, C20, C06 — all reported as the checks stood (the last one also by U23's `get` postcondition).
+* wave 15 (3): C03 (the short-last-line threshold hoisted out of the cost closure and computed from the default width: only wrong when a
+  list of three widths makes the last line's own target differ from the default — reported by U2's obligation `cost == line_cost(…)`, no failing
+  input, see §10), C04 (`column_width - display_width(cell)` without saturation in `wrap_columns`: panics when a double-width character or an
+  unbreakable word overflows its column — U5's overflow obligation and the bounded totality contracts), C17 (`fill_inplace` folding its scratch
+  `line_offset` into `offset`: every wrapped line of an earlier paragraph is counted twice — bounded contract; U10 ends undecided because the loop
+  invariant names the removed local) — all reported as the checks stood.
 
 (`seeded_prompts/` keeps one example of the prompt of each wave style, and of the two harmless campaigns.)
 
 Each change was confirmed by `tools/seedverify.sh` (patch applies; suite passes in both feature sets; its demonstration fails with
 the patch and passes without). `tools/seedtest.py` applies each to `/repo`, runs the checks of the properties it breaks, and undoes
 it; `seeded/RESULTS.json` is its output and **`seeded/RESULTS.md` the full table** (seed, property, files changed, Verus obligations
-failed, BEC contracts failed, undecided units, verdict). After every change to the checks the whole set is run again (last: 206 of
-206 (change, property) pairs reported; `tools/seedpar.py` does the same on scratch copies, several at a time, without touching `/repo`).
+failed, BEC contracts failed, undecided units, verdict). After every change to the checks the whole set is run again (last: 209 of
+209 (change, property) pairs reported; `tools/seedpar.py` does the same on scratch copies, several at a time, without touching `/repo`).
 
 Misses on first contact (and one relabelled seed) and what was strengthened (never by weakening a check):
 
@@ -522,7 +529,7 @@ Misses on first contact (and one relabelled seed) and what was strengthened (nev
 | 12 | w12_C15_A (`impl From<&Options>` rebuilt through the setters, forgetting `line_ending`: `fill(t, &options)` silently uses LF) | U22 proves that conversion copies every option and rejects the change — but U22 was only part of the checks of C02, C04, C08, C09; the bounded contracts pass `Options` by value, which bypasses the conversion | U22 is now part of the check of every property whose entry point takes `Into<Options>` (C01 C05 C13 C15 C16 C20 as well); the C15 / C16 bounded contracts pass `&Options` |
 
 **Verus on its own** (`tools/seedverus.py`, `seeded/VERUS.json`: each change applied to a scratch copy, only the Verus units run):
-a Verus obligation rejects 72 of the 182 changes (1 of the 20 disguised as refactors); the others end *undecided* in Verus (a new construct without a spec, a
+a Verus obligation rejects 74 of the 185 changes (1 of the 20 disguised as refactors); the others end *undecided* in Verus (a new construct without a spec, a
 loop rewritten so that a rewrite rule no longer applies, a lost anchor) or touch code whose contract does not see them
 (`ch_width`'s table — decided by the exhaustive scalar enumeration and Kani K1). Three things raised that share (from 29 to 42 of the first 77 changes):
 (i) specs for the std functions such edits typically reach for (`str::trim_end` / `trim_start` / `trim`, `char::is_ascii`,
